@@ -1615,6 +1615,251 @@ theorem unresolved_is_known_part (tr : Nat → Option Tablets.Node) (htr : ∀ i
       rw [htr id n hid]
       exact congrArg _ ih
 
+/-! ... as an invariant of the tablets HELD in a reachable state (whatever `maintTablet` rewrote since they were learnt). -/
+
+/-- Where a held tablet comes from: some `learn` of the history with its range and raw replica list; if the tablet has
+no unresolved replica its replica list IS that raw list (host ids, shards, order); otherwise it remembers that raw list
+and holds a sub-sequence of it. -/
+def Origin (ops : List StateOp) (t : Tablet) : Prop :=
+  ∃ spec f l raw, StateOp.learn spec f l raw ∈ ops ∧ t.first = f ∧ t.last = l ∧
+    (t.failed = none → rawOf t.replicas.all = raw) ∧
+    (∀ r, t.failed = some r → r = raw ∧ (rawOf t.replicas.all).Sublist raw)
+
+private theorem origin_mono {ops ops' : List StateOp} {t : Tablet} (h : Origin ops t) (hs : ∀ o ∈ ops, o ∈ ops') :
+    Origin ops' t := by
+  obtain ⟨spec, f, l, raw, hm, r⟩ := h
+  exact ⟨spec, f, l, raw, hs _ hm, r⟩
+
+private theorem alGet_mem'' {κ β : Type} [DecidableEq κ] (k : κ) (v : β) (m : List (κ × β)) (h : alGet k m = some v) :
+    (k, v) ∈ m := by
+  induction m with
+  | nil => simp [alGet] at h
+  | cons x m ih =>
+    obtain ⟨k', v'⟩ := x
+    simp only [alGet] at h
+    split at h
+    · rename_i hk; cases h; subst hk; exact List.mem_cons_self
+    · exact List.mem_cons_of_mem _ (ih h)
+
+private theorem mem_alSet'' {κ β : Type} [DecidableEq κ] (k : κ) (v : β) (m : List (κ × β)) :
+    ∀ e ∈ alSet k v m, e = (k, v) ∨ e ∈ m := by
+  induction m with
+  | nil => intro e he; simp [alSet] at he; exact Or.inl he
+  | cons x m ih =>
+    obtain ⟨k', v'⟩ := x
+    intro e he
+    simp only [alSet] at he
+    split at he
+    · rcases List.mem_cons.mp he with rfl | h
+      · exact Or.inl rfl
+      · exact Or.inr (List.mem_cons_of_mem _ h)
+    · rcases List.mem_cons.mp he with rfl | h
+      · exact Or.inr List.mem_cons_self
+      · rcases ih e h with r | r
+        · exact Or.inl r
+        · exact Or.inr (List.mem_cons_of_mem _ r)
+
+private theorem addTablet_mem' (tbl : Table) (new : Tablet) :
+    ∀ t ∈ (tbl.addTablet new).1.tablets, t = new ∨ t ∈ tbl.tablets := by
+  intro t ht
+  unfold Table.addTablet at ht
+  cases h : addTabletList tbl.tablets new with
+  | none => rw [h] at ht; exact Or.inr ht
+  | some l =>
+    rw [h] at ht
+    simp only [] at ht
+    unfold addTabletList at h
+    simp only [] at h
+    split at h
+    · cases h
+      rcases List.mem_append.mp ht with hm | hm
+      · exact Or.inr (List.mem_of_mem_take hm)
+      · rcases List.mem_cons.mp hm with rfl | hm
+        · exact Or.inl rfl
+        · exact Or.inr (List.mem_of_mem_drop hm)
+    · cases h
+
+private theorem mem_foldl_addKs (kss : List (String × Bool × List String)) :
+    ∀ (acc : List ((String × String) × Table)), ∀ e ∈ kss.foldl C15.addKs acc, e ∈ acc ∨ e.2 = Table.empty := by
+  have inner : ∀ (ksn : String) (tbs : List String) (acc : List ((String × String) × Table)),
+      ∀ e ∈ tbs.foldl (C15.addEntry ksn) acc, e ∈ acc ∨ e.2 = Table.empty := by
+    intro ksn tbs
+    induction tbs with
+    | nil => intro acc e he; exact Or.inl he
+    | cons tb tbs ih =>
+      intro acc e he
+      simp only [List.foldl_cons] at he
+      rcases ih _ e he with h | h
+      · unfold C15.addEntry at h
+        split at h
+        · exact Or.inl h
+        · rcases List.mem_append.mp h with h | h
+          · exact Or.inl h
+          · simp only [List.mem_singleton] at h; subst h; exact Or.inr rfl
+      · exact Or.inr h
+  induction kss with
+  | nil => intro acc e he; exact Or.inl he
+  | cons ks kss ih =>
+    intro acc e he
+    simp only [List.foldl_cons] at he
+    rcases ih _ e he with h | h
+    · unfold C15.addKs at h
+      split at h
+      · exact inner _ _ _ e h
+      · exact Or.inl h
+    · exact Or.inr h
+
+private theorem rawOf_updateStale (rc : List (Nat × Tablets.Node)) (hrc : C15.KeyOk rc) (t : Tablet) :
+    rawOf (updateStale rc t).replicas.all = rawOf t.replicas.all := by
+  simp only [updateStale, rawOf, List.map_map]
+  apply List.map_congr_left
+  intro p _
+  simp only [Function.comp, swapNode]
+  cases hg : alGet p.1.hostId rc with
+  | none => rfl
+  | some n => simp only []; rw [hrc _ _ hg]
+
+private theorem origin_maintTablet {ops : List StateOp} {rm : List Nat} {ns rc : List (Nat × Tablets.Node)}
+    (hns : C15.KeyOk ns) (hrc : C15.KeyOk rc) {t u : Tablet} (ho : Origin ops t)
+    (h : C15.maintTablet rm ns rc t = some u) : Origin ops u := by
+  unfold C15.maintTablet at h
+  simp only [Option.map_eq_some_iff, Option.bind_eq_some_iff] at h
+  obtain ⟨t2, ⟨t1, h1, h2⟩, rfl⟩ := h
+  have e12 : t2 = t1 := by
+    split at h2
+    · cases h2
+    · cases h2; rfl
+  subst e12
+  obtain ⟨spec, f, l, raw, hm, hf, hl, hnone, hsome⟩ := ho
+  have hus : (updateStale rc t2).first = t2.first ∧ (updateStale rc t2).last = t2.last ∧
+      (updateStale rc t2).failed = t2.failed := ⟨rfl, rfl, rfl⟩
+  cases hfail : t.failed with
+  | none =>
+    have : t2 = t := by unfold reResolve at h1; simp only [hfail, Option.some.injEq] at h1; exact h1.symm
+    subst this
+    refine ⟨spec, f, l, raw, hm, by rw [hus.1]; exact hf, by rw [hus.2.1]; exact hl, ?_, ?_⟩
+    · intro _; rw [rawOf_updateStale rc hrc]; exact hnone hfail
+    · intro r hr; rw [hus.2.2, hfail] at hr; cases hr
+  | some r0 =>
+    obtain ⟨hr0, _⟩ := hsome r0 hfail
+    subst hr0
+    obtain ⟨hfn, hraw⟩ := (resolved_is_raw (fun id => alGet id ns) hns).2 t t2 r0 hfail h1
+    have hrange : t2.first = t.first ∧ t2.last = t.last := by
+      unfold reResolve at h1
+      simp only [hfail, fromRawReplicas] at h1
+      by_cases hc : (resolveFailed (fun id => alGet id ns) r0).isEmpty = true
+      · rw [if_pos hc] at h1; cases h1; exact ⟨rfl, rfl⟩
+      · rw [if_neg hc] at h1; cases h1
+    refine ⟨spec, f, l, r0, hm, by rw [hus.1, hrange.1]; exact hf, by rw [hus.2.1, hrange.2]; exact hl, ?_, ?_⟩
+    · intro _; rw [rawOf_updateStale rc hrc]; exact hraw
+    · intro r hr; rw [hus.2.2, hfn] at hr; cases hr
+
+private theorem keyOk_recreated (old new : Known) (hk : C15.KeyOk (nodesOf new)) : C15.KeyOk (recreatedNodes old new) := by
+  intro id n hg
+  have hm := alGet_mem'' _ _ _ hg
+  simp only [recreatedNodes, List.mem_filterMap] at hm
+  obtain ⟨e, _, he⟩ := hm
+  cases hn : alGet e.1 new with
+  | none => rw [hn] at he; cases he
+  | some kn =>
+    rw [hn] at he
+    simp only [] at he
+    split at he
+    · simp only [Option.some.injEq, Prod.mk.injEq] at he
+      obtain ⟨rfl, rfl⟩ := he
+      exact hk _ _ (by rw [alGet_nodesOf', hn]; rfl)
+    · cases he
+
+/-- **Every tablet HELD in a reachable state is complete or knows what it lacks** (invariant along any history of
+tablet feedback and metadata refreshes, any host-filter verdicts): it stems from a `learn` of the history with that
+range; if no replica of it is unresolved, its replica list is exactly the raw list the servers sent with that feedback
+(same hosts, same shards, same order - also after re-resolution and after re-created `Node` objects were swapped in);
+otherwise it still remembers that raw list and holds a sub-sequence of it. With `refresh_leaves_nothing_unresolved`:
+right after a refresh every held tablet hands the policy ALL replicas the servers named. -/
+theorem held_tablets_complete (kss : List (String × Bool × List String)) (peers : List ((Ring.Node × Nat) × Bool))
+    (ops : List StateOp) :
+    ∀ e ∈ ((RState.init kss peers).run kss ops).info.tables, ∀ t ∈ e.2.tablets, Origin ops t := by
+  -- the invariant carried along: origins, honest flags, and C15's `StateOk` (for `KeyOk` of the node maps)
+  let I : List StateOp → RState → Prop := fun pre st =>
+    (∀ e ∈ st.info.tables, ∀ t ∈ e.2.tablets, Origin pre t) ∧ FlagsHonest st.info ∧ C15.StateOk st
+  have refreshI : ∀ (pre : List StateOp) (st : RState) (ps : List TabletsRefresh.Peer), I pre st →
+      (∀ e ∈ (refresh st ps kss).info.tables, ∀ t ∈ e.2.tablets, Origin pre t) := by
+    intro pre st ps ⟨ho, hfl, hok⟩ e he t ht
+    have hok' := C15.stateOk_refresh st hok ps kss
+    have hns : C15.KeyOk (nodesOf (newTopology st.known st.gen ps).1) := hok'.1
+    have hrc := keyOk_recreated st.known (newTopology st.known st.gen ps).1 hns
+    simp only [refresh, performTabletsMaintenance] at he
+    rw [C15.maintenance_unfold] at he
+    simp only [] at he
+    have hbase : ∀ x ∈ kss.foldl C15.addKs (st.info.tables.filter (fun e => C15.keptBy kss e.1)),
+        (∀ t ∈ x.2.tablets, Origin pre t) ∧ C15.FlagInv x.2 := by
+      intro x hx
+      rcases mem_foldl_addKs kss _ x hx with h | h
+      · have hm := (List.mem_filter.mp h).1
+        exact ⟨ho x hm, hfl.tables x hm⟩
+      · rw [h]; exact ⟨by intro t ht; simp [Table.empty] at ht, by intro _ t ht; simp [Table.empty] at ht⟩
+    split at he
+    · obtain ⟨x, hx, rfl⟩ := List.mem_map.mp he
+      simp only [] at ht
+      rw [(C15.maintenance_eq_filterMap x.2 (hbase x hx).2 _ _ _).1] at ht
+      obtain ⟨t0, ht0, hmt⟩ := List.mem_filterMap.mp ht
+      exact origin_maintTablet hns hrc ((hbase x hx).1 t0 ht0) hmt
+    · exact (hbase e he).1 t ht
+  have stepI : ∀ (pre : List StateOp) (st : RState) (op : StateOp), I pre st → I (pre ++ [op]) (st.step kss op) := by
+    intro pre st op hI
+    obtain ⟨ho, hfl, hok⟩ := hI
+    have mono : ∀ t, Origin pre t → Origin (pre ++ [op]) t :=
+      fun t h => origin_mono h (fun o ho' => List.mem_append_left _ ho')
+    cases op with
+    | learn spec f l raw =>
+      refine ⟨?_, C15.learn_keeps_flags_honest hfl spec _, C15.stateOk_learn st hok spec f l raw⟩
+      intro e he t ht
+      have hshape : (RState.step kss st (.learn spec f l raw)).info.tables =
+          alSet spec (((alGet spec st.info.tables).getD Table.empty).addTablet
+            (Tablet.fromRaw f l raw (translator st.known))).1 st.info.tables := rfl
+      rw [hshape] at he
+      have htr : ∀ id n, translator st.known id = some n → n.hostId = id := by
+        intro id n hn
+        exact hok.1 id n (by rw [alGet_nodesOf']; exact hn)
+      rcases mem_alSet'' _ _ _ e he with rfl | hm
+      · rcases addTablet_mem' _ _ t ht with rfl | hm
+        · refine ⟨spec, f, l, raw, List.mem_append_right _ List.mem_cons_self, rfl, rfl, ?_, ?_⟩
+          · intro hn; exact (resolved_is_raw _ htr).1 f l raw hn
+          · intro r hr
+            have hr' : r = raw := by
+              simp only [Tablet.fromRaw, fromRawReplicas] at hr
+              by_cases hc : (resolveFailed (translator st.known) raw).isEmpty = true
+              · rw [if_pos hc] at hr; cases hr
+              · rw [if_neg hc] at hr; cases hr; rfl
+            refine ⟨hr', ?_⟩
+            rw [unresolved_is_known_part _ htr]
+            exact List.filter_sublist
+        · cases hg : alGet spec st.info.tables with
+          | none => rw [hg] at hm; simp [Table.empty] at hm
+          | some c =>
+            rw [hg] at hm
+            exact mono t (ho _ (alGet_mem'' _ _ _ hg) t hm)
+      · exact mono t (ho e hm t ht)
+    | refresh ps =>
+      refine ⟨?_, (C15.refresh_resolves_all hfl _ _ _ _).2, C15.stateOk_refresh st hok _ kss⟩
+      intro e he t ht
+      exact mono t (refreshI pre st (ps.map toPeer) ⟨ho, hfl, hok⟩ e he t ht)
+  have runI : ∀ (ops pre : List StateOp) (st : RState), I pre st → I (pre ++ ops) (st.run kss ops) := by
+    intro ops
+    induction ops with
+    | nil => intro pre st h; simpa [RState.run] using h
+    | cons op ops ih =>
+      intro pre st h
+      have := ih (pre ++ [op]) _ (stepI pre st op h)
+      simpa [RState.run, List.append_assoc] using this
+  have h0 : I [] (RState.init kss peers) := by
+    have hI0 : I [] TabletsRefresh.CState.init :=
+      ⟨by intro e he; simp [CState.init, Info.empty] at he, C15.flags_honest_empty, C15.stateOk_init⟩
+    exact ⟨refreshI [] _ _ hI0, (C15.refresh_resolves_all C15.flags_honest_empty _ _ _ _).2,
+      C15.stateOk_refresh _ C15.stateOk_init _ kss⟩
+  have := runI ops [] _ h0
+  simpa using this.1
+
 -- non-vacuity: the late-replica shape. Nodes 1 (dc0) and 2 (dc1) are known; a tablet names node 4 (unknown) and node 2;
 -- a refresh then adds node 4 at the end of the peer list (nobody removed or re-created): the tablet is complete again.
 private def n1 : Ring.Node := ⟨1, some 0, some 0⟩
